@@ -1,4 +1,5 @@
 """Common shape of the text-input drivers: shards, case iteration, replay."""
+import os
 import random
 
 from .. import harness
@@ -8,7 +9,7 @@ VERSIONS = harness.VERSIONS
 
 
 def shards(tier, seed, quick_n, thorough_n, nshards=16, budget_quick=60, budget_thorough=600, **extra):
-    n = quick_n if tier == 'quick' else thorough_n
+    n = int((quick_n if tier == 'quick' else thorough_n) * float(os.environ.get('VERIF_SCALE', '1')))
     out = []
     for i in range(nshards):
         d = {'kind': 'hostile', 'n': n // nshards,
